@@ -1578,6 +1578,23 @@ class EnvWalker:
         self.NF = NF(facts)
         self.crate = crate or facts.lib
 
+    def _iter_source(self, it):
+        """a local helper that returns an iterator (`element_children(node)` = `node.children().filter(..)`) is read as the chain it
+        returns"""
+        if CANON and isinstance(it, tuple) and it[0] == "call" and isinstance(it[1], str):
+            if getattr(self, "_ce_", None) is None:
+                self._ce_ = CallExpander(self.F)
+            if it[1].startswith("iter::") and len(it[2]) == 2:
+                # an adaptor chain on top of such a helper: `element_children(x).filter(p)`
+                inner = self._iter_source(it[2][0])
+                if inner != it[2][0]:
+                    return ("call", it[1], (inner, nf_replace(it[2][1], ("elem", it[2][0]), ("elem", inner)))) + tuple(it[3:])
+                return it
+            ex = self._ce_.expand(it)
+            if ex != it and isinstance(ex, tuple) and (ex[0] == "field" or (ex[0] == "call" and str(ex[1]).startswith("iter::"))):
+                return ex
+        return it
+
     def walk_fn(self, path, cb):
         b = self.crate.body(path)
         if b is None or b.get("hir") is None:
@@ -1629,7 +1646,7 @@ class EnvWalker:
                 self._w(a["body"], env_a, cb, ctx + (("alt", ("islet", pat_label(a["pat"]), scrut), True),))
         elif k == "For":
             self._w(e["iter"], env, cb, ctx)
-            it = N.nf(e["iter"], env)
+            it = self._iter_source(N.nf(e["iter"], env))
             if it[0] == "tuple":
                 for item in it[1]:
                     env_b = env.child()
@@ -1695,7 +1712,7 @@ class EnvWalker:
                 self._w(body["value"], env2, cb, ctx)
                 return
         if name in ("for_each", "try_for_each") and is_iter:
-            src, val, conds = iter_view(recv)
+            src, val, conds = iter_view(self._iter_source(recv))
             for pat in body["params"]:
                 bind_pattern(pat, val, env2)
             self._w(body["value"], env2, cb, ctx + (("star", src),) + tuple(("alt", c, b) for c, b in conds))
